@@ -53,6 +53,8 @@ class C01(Check):
         "store_results_in_network, expected_demand_param and Pattern/TimeSeries/Demands.at are hand transliterations tied by the "
         "simulation oracle (reported demand vs the Lean expectedDemand, exact to 1e-12). INLET/OUTLET of arbitrary registries is the "
         "C14 invariant; here adjacency is checked on the zoo (proof) and on random networks (oracle with adjacency from the spec). "
+        "Tanks with a volume curve are generated (their reported demand is still the net inflow). Emitter coefficients are silently ignored by WNTRSimulator "
+        "(no emitter flow is simulated or reported, the balance holds without it); GPV / PBV / D-W / C-M / pump speeds != 1 are refused (see C02). "
         "Junctions WNTR flags as isolated are judged too; 'connected' (for the DD formula) is decided by the check's own reachability.",
         technique="Lean 4 proof over translator-regenerated constraint rows + differential run of real residuals against the Lean driver + "
         "exact-rational balance oracle on real simulations",
